@@ -7,11 +7,20 @@ Import ListNotations.
 Local Open Scope string_scope. Local Open Scope list_scope.
 Definition mkI3 n a b := mkI n a b None.   (* an input without a binding on its items *)
 
+(* [job_typed] of a concrete tool and input object *)
+Ltac typed_input :=
+  split; [intros H l; try discriminate H; vm_compute; discriminate
+         |split; [intros H l E; try (exfalso; apply H; reflexivity); inversion E; subst; repeat constructor
+                 |intros H b E; try discriminate H; try discriminate E; inversion E; subst; vm_compute;
+                  intros; repeat constructor; auto]].
+Ltac typed_job := split; [repeat (constructor; [typed_input|]); constructor
+                         |repeat (constructor; [vm_compute; intros; repeat constructor; auto|]); constructor].
+
 (* CWLCommandTokenProcessor.bind against Builder.generate_arg, one binding, every value (null, booleans, numbers,
    strings, arrays of any length) and every combination of prefix / separate / itemSeparator / quoting flags:
    no token exactly when no argument, else the same arguments piece for piece, quoted as the flags say. *)
 Theorem C30_binding_equiv : forall f b v,
-  b_prefix b <> Some "" -> b_isep b <> Some "" ->
+  b_prefix b <> Some "" -> b_isep b <> Some "" -> value_ok b v ->
   match sf_bind f b v with
   | None => spec_generate b v = []
   | Some l => spec_generate b v <> [] /\ map repr l = map (q_str (flags_q f)) (spec_generate b v)
@@ -22,7 +31,9 @@ Proof. exact bind_equiv. Qed.
    (ties, negatives), any values.  [tool_ok]: non-empty prefixes/separators, input names sorting after argument
    indexes, and no ARRAY input bound without valueFrom/itemSeparator says shellQuote:false under
    ShellCommandRequirement (cwltool quotes such items regardless: C30_array_quote_false_refuted).
-   [job_typed]: an input not declared as an array does not hold one. *)
+   [job_typed]: an input not declared as an array does not hold one, and every binding meets a value in [value_ok]:
+   no null/boolean items printed one by one, no empty list out of a valueFrom under a prefix (the reference and
+   StreamFlow differ there: C30_bool_null_items_refuted, C30_empty_valuefrom_refuted). *)
 Theorem C30_line_equiv : forall t j, tool_ok t -> job_typed t j -> sf_line t j = spec_line t j.
 Proof. exact line_equiv. Qed.
 
@@ -52,10 +63,27 @@ Theorem C30_env_redirections : forall args e w i o er,
                         (app (map W args) (app (stdin_toks i) (app (stdout_toks o) (stderr_toks o er)))))).
 Proof. intros. apply create_command_tokens; auto. apply cmd_ok_quoted. assumption. Qed.
 
-(* CWLCommand.execute's stream defaults (after the fix of finding 4): the tool's stdout / stderr are on a file exactly
-   when the tool declares `stdout` / `stderr`, and on that file; an undeclared stderr no longer follows stdout. *)
-Theorem C30_stream_targets : forall so se, sf_stdout_target so se = so /\ sf_stderr_target so se = se.
-Proof. intros. split; [apply stdout_target_spec|apply stderr_target_spec]. Qed.
+(* CWLCommand.execute's stream defaults (after the fix of finding 4), through create_command: with `stdout: f` declared
+   and `stderr` not, the line carries NO stderr redirection (before the fix: 2>&1 into f). *)
+(* ... and for every declared / undeclared combination: the streams execute() chooses, put through create_command,
+   lex to the command words followed by exactly the redirections that put fd 1 / fd 2 of the tool on the declared
+   files (names verbatim, whatever they contain) and nowhere else *)
+Theorem C30_stream_targets : forall args so se,
+  args <> [] ->
+  exists line,
+    create_command (map quote args) None None None (fst (sf_streams so se)) (snd (sf_streams so se)) = inl line /\
+    sh_lex line = Some (app (wd_toks "&&" None) (app (export_toks "&&" (opt_env None))
+                    (app (map W args) (app (stdin_toks None)
+                       (app (stdout_toks (fst (sf_streams so se)))
+                            (stderr_toks (fst (sf_streams so se)) (snd (sf_streams so se)))))))) /\
+    sf_stdout_target so se = so /\ sf_stderr_target so se = se.
+Proof.
+  intros args so se Ha.
+  assert (Hp : fst (sf_streams so se) <> SPipe) by (unfold sf_streams; destruct so; cbn; intro HH; discriminate HH).
+  destruct (create_command_tokens (map quote args) (map W args) None None None
+              (fst (sf_streams so se)) (snd (sf_streams so se)) (cmd_ok_quoted args Ha) eq_refl Hp) as (line & H1 & H2).
+  exists line. repeat split; [exact H1|exact H2|apply stdout_target_spec|apply stderr_target_spec].
+Qed.
 Theorem C30_stderr_unset_not_redirected : forall f, let (o, e) := sf_streams (Some f) None in stderr_str o e = "".
 Proof. exact stderr_unset_file. Qed.
 
@@ -77,8 +105,45 @@ Definition qf_job : job := [("z", Arr [VStr "= say hi"])].
 Theorem C30_array_quote_false_refuted :
   exists t j, job_typed t j /\ spec_line t j = "tool -z '= say hi'" /\ sf_line t j = "tool -z = say hi".
 Proof.
-  exists qf_tool, qf_job. split; [|vm_compute; split; reflexivity].
-  repeat constructor; try discriminate. intros H; exfalso; apply H; reflexivity.
+  exists qf_tool, qf_job. split; [typed_job|vm_compute; split; reflexivity].
+Qed.
+
+(* Outside [job_typed] (found by an audit of the first version of the reference model, which was wrong here):
+   null and boolean ITEMS of an array bound without valueFrom / itemSeparator -- the reference binds them one by one and
+   prints nothing for them, StreamFlow prints True / False / None; and an EMPTY list out of a valueFrom under a prefix
+   -- the reference emits the bare prefix, StreamFlow nothing. *)
+Definition bn_tool : tool :=
+  mkT false ["tool"] []
+      [mkI3 "bs" true (Some (mkB 1 (Some "-b") true None None VfNone));
+       mkI3 "ns" true (Some (mkB 2 (Some "-n") true None None VfNone))].
+Definition bn_job : job := [("bs", Arr [VBool true; VBool false]); ("ns", Arr [VNull; VStr "x"])].
+Theorem C30_bool_null_items_refuted :
+  exists t j, tool_ok t /\ spec_argv t j = ["tool"; "-b"; "-n"; "x"] /\
+              sf_argv t j = Some ["tool"; "-b"; "True"; "False"; "-n"; "None"; "x"].
+Proof.
+  exists bn_tool, bn_job. split; [|vm_compute; split; reflexivity].
+  split; repeat constructor; try discriminate; try (apply name_ok_head; reflexivity); try (intros; reflexivity).
+Qed.
+Definition ev_tool : tool :=
+  mkT false ["tool"] [mkB 9 (Some "-a") true None None (VfIn "emp")]
+      [mkI3 "emp" true None; mkI3 "e" false (Some (mkB 3 (Some "-e") true None None (VfIn "emp")))].
+Definition ev_job : job := [("emp", Arr []); ("e", Sc (VStr "E"))].
+Theorem C30_empty_valuefrom_refuted :
+  exists t j, tool_ok t /\ spec_argv t j = ["tool"; "-e"; "-a"] /\ sf_argv t j = Some ["tool"].
+Proof.
+  exists ev_tool, ev_job. split; [|vm_compute; split; reflexivity].
+  split; repeat constructor; try discriminate; try (apply name_ok_head; reflexivity); try (intros; reflexivity).
+Qed.
+(* ... and the array's own prefix over bound items that all stay silent (all false): the reference still emits it *)
+Definition sz_tool : tool :=
+  mkT false ["tool"] []
+      [mkI "bz" true (Some (mkB 3 (Some "-z") true None None VfNone)) (Some (mkB 0 (Some "-w") true None None VfNone))].
+Definition sz_job : job := [("bz", Arr [VBool false; VBool false])].
+Theorem C30_silent_items_prefix_refuted :
+  exists t j, tool_ok t /\ spec_argv t j = ["tool"; "-z"] /\ sf_argv t j = Some ["tool"].
+Proof.
+  exists sz_tool, sz_job. split; [|vm_compute; split; reflexivity].
+  split; repeat constructor; try discriminate; try (apply name_ok_head; reflexivity); try (intros; reflexivity).
 Qed.
 
 (* Floats.  Both sides render a float from the job's spelling through decimal.Decimal ([dec_repr]; the repr of the
@@ -107,9 +172,14 @@ Proof. vm_compute. repeat split; reflexivity. Qed.
    [tool_ok] admits a binding on the items under a binding on the array that leaves shellQuote unwritten and has a
    shell-safe prefix (if any); for those C30_line_equiv / C30_argv_equiv hold as stated: prefix, then the items in
    index order, wherever the item binding's position points -- in both runners. *)
-Theorem C30_item_binding_order : forall t j,
-  tool_ok t -> job_typed t j -> quotes_all t -> sf_argv t j = Some (spec_argv t j).
-Proof. exact argv_equiv. Qed.
+(* with a binding on the array itself the POSITION written on the item binding is irrelevant in both runners: the
+   array's prefix, then the items in index order (cwltool's keys [P, name, n, itempos, ...] sort by n before itempos;
+   StreamFlow's item tokens only lend their values to the array's token) *)
+Theorem C30_item_binding_order : forall t j i ib ob p,
+  i_bind i = Some ob ->
+  spec_item_input t j i (set_pos ib p) = spec_item_input t j i ib /\
+  sf_item_input t j i (set_pos ib p) = sf_item_input t j i ib.
+Proof. exact item_position_irrelevant. Qed.
 Definition it_tool : tool :=
   mkT false ["tool"] []
       [mkI "x" true (Some (mkB 2 (Some "-x") true None None VfNone)) (Some (mkB 7 (Some "-i y") true None None VfNone));
@@ -121,8 +191,7 @@ Example C30_item_binding_order_ex :
 Proof.
   split; [|split; [|split]].
   - split; repeat constructor; try discriminate; try (apply name_ok_head; reflexivity); try (intros; reflexivity).
-  - repeat constructor; try discriminate; intros H l E; try (exfalso; apply H; reflexivity);
-      inversion E; subst; repeat constructor.
+  - typed_job.
   - intros b Hb. unfold quoted. reflexivity.
   - vm_compute. reflexivity.
 Qed.
@@ -178,8 +247,7 @@ Proof.
   split; [|split].
   - split; repeat constructor; try discriminate; try (apply name_ok_head; reflexivity); try (intros; reflexivity).
   - intros b Hb. vm_compute in Hb. repeat (destruct Hb as [<-|Hb]; [reflexivity|]). destruct Hb.
-  - repeat constructor; try (intros H l; try discriminate; vm_compute; discriminate);
-      intros H; exfalso; apply H; reflexivity.
+  - typed_job.
 Qed.
 Example C30_ex_argv :
   sf_argv ex_tool ex_job
@@ -199,8 +267,11 @@ Print Assumptions C30_env_redirections.
 Print Assumptions C30_array_quote_false_refuted.
 Print Assumptions C30_float_spelling_kept.
 Print Assumptions C30_item_binding_order.
+Print Assumptions C30_stream_targets.
+Print Assumptions C30_bool_null_items_refuted.
+Print Assumptions C30_empty_valuefrom_refuted.
+Print Assumptions C30_silent_items_prefix_refuted.
 Print Assumptions C30_item_only_order_refuted.
 Print Assumptions C30_item_twice_refuted.
 Print Assumptions C30_item_array_prefix_refuted.
-Print Assumptions C30_stream_targets.
 Print Assumptions C30_stderr_unset_not_redirected.
